@@ -1157,6 +1157,16 @@ def check_gen_determinism(prop, tier, seed, repo, keep):
             ('argv0', odd, dict(GOENV, GOMAXPROCS='7'), otherdir, ['qq-zebra-plugin-7f3a', 'zz-other-cwd-91c2']),
             ('empty-env', plugin, {'PATH': '/usr/bin'}, reqdir, []),
         ]
+        # "environment saturation": every upper-case identifier that occurs as a string in the plugin binary (whatever
+        # variable the program might consult is among them) is set to a marker value, except the Go runtime's knobs
+        blob = open(plugin, 'rb').read()
+        # (Go lays string constants out back to back: a name may touch lower-case text or digits on either side)
+        names = sorted({m.group(0).decode() for m in re.finditer(rb'(?<![A-Z0-9_])[A-Z][A-Z0-9_]{2,40}(?![A-Z0-9_])', blob)})
+        names = [n for n in names if not n.startswith(('GO', 'CGO')) and ('_' in n or len(n) >= 5) and n not in ('PATH',)][:30000]
+        sat_env = {n: 'zzverif-env-marker-7e1f' for n in names}
+        sat_env['PATH'] = '/usr/bin'
+        counters['environment-saturation-variables'] = len(names)
+        perturb.append(('env-saturation', plugin, sat_env, reqdir, ['zzverif-env-marker-7e1f']))
         hostname = socket.gethostname()
         for s in chosen[:8] if tier == 'quick' else chosen:
             req = open(os.path.join(reqdir, s['name'] + '.req'), 'rb').read()
